@@ -143,6 +143,13 @@ def run(check, repo, tier):
     check.rule("R1", "on every abstract path of every public command that ends in a validation/interlock exception: nothing was delivered and the final store of the tracked objects equals the initial store")
     cr = CommandRun(repo, tier=tier, cm_body=("pass",))
     results = cr.run(analyse)
+    if tier == "quick":
+        # the two motion primitives validate in several places (pre-validation, core update, state setter): a rejection that
+        # needs one more non-default decision than the quick bound (target equal to the tracked position + a bounds entry + a
+        # parameter word + the late raise) is still explored on every change (round 7 seed C05-prevalidation-skipped-...)
+        deep = CommandRun(repo, tier=tier, max_dev=4, methods=["move", "rapid"], cm_body=("pass",))
+        results = [r for r in results if r["command"] not in ("move", "rapid")] + deep.run(analyse)
+        cr.stats["deep_motion_paths"] = sum(r["paths"] for r in results if r["command"] in ("move", "rapid"))
     check.floor(not (cr.stats["commands"] < 40), f"C05: only {cr.stats['commands']} public commands analysed (floor 40)")
     rejected = 0
     for r in results:
@@ -164,7 +171,7 @@ def run(check, repo, tier):
         "Every public GCodeBuilder command is abstractly executed from a havocked state for every enum member / flag / "
         "presence of optional words; on each path ending in an in-scope exception the trace must contain no writer delivery "
         "and the final store of builder, GState and bounds table must equal the initial one. "
-        + ("Exhaustive path enumeration." if tier == "thorough" else "Quick tier: at most 3 non-default decisions per path."))
+        + ("Exhaustive path enumeration." if tier == "thorough" else "Quick tier: at most 3 non-default decisions per path (4 for move and rapid)."))
     check.assume("raise set: every exception except the DeviceError family / GscribError I/O wrapper and typeguard type errors")
     check.assume("interpolated shapes (g.trace.*) are sequences of move commands by design; each move is covered as a command of its own")
     check.assume("formatter number()/parameters() used through their contract: ValueError iff a numeric value is not finite (checked by C08)")
